@@ -58,6 +58,7 @@ func (e *Engine) verifyUnit(fn *ssa.Function, ct *FuncContract, alias []string, 
 		sig := e.checkSig(sp, "func(x "+g.Type+") bool", ct.Src)
 		gt := sig.Params().At(0).Type()
 		fr.ghostLoc[g.Name] = vc.sortOf(gt)
+		vc.ghostLocalSorts["local:"+g.Name] = vc.sortOf(gt)
 		fr.ghostTyp[g.Name] = gt
 	}
 	fr.onEntry = func(st *State) {
